@@ -12,6 +12,12 @@ CHECKS = {
    note="SHA-256 / rs_merkle collision freedom; nothing claimed beyond the length bound.",
    technique="bounded exhaustive enumeration of all input pairs against a reference (prefix) model, executed on the real CommitTree/CommitProof code",
    design_ref="DESIGN.md §5 C08"),
+ "C09": dict(engine="schedx", level="model_checking",
+   text="Stateless CHESS-style schedule exploration of the real client auto-merge code (default AutoMerge/RemoteSyncHandler methods over a real LocalAccount) against a real in-process server: one execute_sync call per device, a gate at every protocol request (exists, status, sync, scan, diff, patch, ...) inside the harness's SyncClient wrapper; deviation-bounded DFS over choice vectors (preemption bound 2 quick / 4 thorough) for pre-histories {one ahead, soft conflict equal/unequal length, same secret edited on both, both rename; thorough: no divergence and three devices}. Per step: the server's logs never lose an event they held, read requests change nothing; per execution: every sync call ends (no deadlock, no horizon overflow), no event the server ever held is absent at the end, and three further sequential rounds converge.",
+   note="Scheduling points are protocol requests (sound for devices that share only the server; the server handles one request at a time in the harness); interleavings inside one handler are not explored; replayed prefixes must reproduce (divergence is a machinery error).",
+   technique="stateless deviation-bounded (preemption-bounded) DFS over request-level interleavings of real concurrent sync calls",
+   design_ref="DESIGN.md §5 C09"),
+
  "C13": dict(engine="crashx", level="fault_enumeration",
    text="For each of 11 mutating operations (create/update/delete/move secret, rename/re-flag/describe/create/delete folder, compact folder, change folder password) on the file-system backend the real operation is executed by a driver process under strace; every file-system effect between two marker syscalls is replayed on the pre-state and one crash image is materialised after every effect and for every torn prefix of every write (all byte prefixes in thorough; stride 24 plus fixed offsets in quick). The replay is validated on every run against the real after-state (byte for byte). Every image is opened through LocalAccount::new_unauthenticated + sign_in and judged: opens; every event log equals its state before or after the operation; the folder served equals the replay of its log.",
    note="Crash model = process death (completed syscalls persist in order; writes may be torn at any byte); power-loss reordering out of scope (the code never fsyncs). SQLite backend relies on SQLite's transaction recovery (trusted) and is not enumerated at this commit. Merge/rewind operations are not yet driven.",
@@ -69,7 +75,7 @@ CHECKS = {
    design_ref="DESIGN.md §5 C01"),
  "C02": dict(engine="hist", level="model_checking",
    text="On every transition of the C01 search (local edits on both backends): the folder reduced from the persisted event log, the folder the account serves and the vault decoded from the mirror (vault file / folder rows) are decrypted and must be equal (name, flags, description, ids, meta, values) and equal to the model; and for every commit of every folder log, FolderReducer::new_until_commit must equal an independent reference reducer over the same record prefix.",
-   note="Local histories only at this commit; merges / force merges are added by the sync-world engine.",
+   note="Local histories by the hist engine plus merge worlds by the sync engine (every device after every sync step); force merges after hard conflicts not yet driven.",
    technique="explicit-state BFS over real account states; replay==served==mirror invariant and per-commit reference-reducer comparison at every transition",
    design_ref="DESIGN.md §5 C02"),
  "C12": dict(engine="hist", level="model_checking",
@@ -84,7 +90,7 @@ CHECKS = {
    design_ref="DESIGN.md §5 C16"),
  "C20": dict(engine="hist", level="model_checking",
    text="At every transition of the C01 search the account's incrementally maintained search index is compared with a fresh index rebuilt with add_folder over the same unlocked folders: documents (ids, folder, full meta), one document per live secret, counters (per folder, kind, tag, favourites; zero entries normalised) and query results for every label in play.",
-   note="Local histories only at this commit; merges are added by the sync-world engine.",
+   note="Local histories by the hist engine plus merge worlds by the sync engine (every device after every sync step).",
    technique="explicit-state BFS over real account states; incremental==rebuilt index invariant at every transition",
    design_ref="DESIGN.md §5 C20"),
 }
